@@ -140,6 +140,26 @@ Theorem C18_dec_enc_partial : forall shake256 sha3_256 kg_randomness enc_randomn
   dec shake256 sha3_256 sk ct = Some (Some k).
 Proof. exact dec_enc_partial. Qed.
 Print Assumptions C18_dec_enc_partial.
+(* stronger proved part: correctness CONDITIONAL on the lane-noise bound.  The decoded value is
+   embed(payload) + (b.c - d.a) where a, c / b, d are the short secret vectors of key generation / encapsulation
+   and `.` is the sum of negacyclic products; if every lane of every coefficient of that noise term is at most
+   2^14 - 3 in absolute value, decapsulation returns the encapsulated key.  That the bound holds except with
+   negligible probability over the seeds is a cryptographic estimate outside this technique. *)
+Theorem C18_dec_enc_noise_partial : forall shake256 sha3_256 kg_randomness enc_randomness sk pk k ct,
+  keygen shake256 kg_randomness = Some (sk, pk) ->
+  enc shake256 sha3_256 pk enc_randomness = Some (k, ct) ->
+  let payload := shake256 enc_randomness ENC_OUTPUT_LENGTH in
+  length payload = 32%nat -> Forall byte payload ->
+  (forall a c b d,
+     derive_secret_vectors shake256 (fst sk) = Some (a, c) ->
+     derive_secret_vectors shake256 payload = Some (b, d) ->
+     Forall (lane_noise (EXTRACT_THRESHOLD - 3)) (kem_noise a b c d)) ->
+  dec shake256 sha3_256 sk ct = Some (Some k).
+Proof. exact dec_enc_noise_partial. Qed.
+Print Assumptions C18_dec_enc_noise_partial.
+Example C18_noise_example : toy_noise_check = true.
+Proof. exact toy_noise_check_true. Qed.
+
 (* the hypotheses are satisfiable: a complete run with toy hash functions is accepted, decodes the payload,
    and the same ciphertext with one coefficient changed by 1 is rejected (computed once in LatticeExamples.v) *)
 Example C18_kem_example : toy_kem_check = true.
